@@ -130,18 +130,15 @@ def optimal_case(case, fail):
     return evals, nt_keys, 'ok'
 
 
-def weight_le_t_errors(n, t, rng, limit):
-    singles = []
-    for q in range(n):
-        for a, b in ((1, 0), (1, 1), (0, 1)):
-            singles.append((q, a, b))
+def weight_le_t_errors(n, t, rng, limit, paulis='XYZ'):
+    pool = tuple(ab for ab, nm in (((1, 0), 'X'), ((1, 1), 'Y'), ((0, 1), 'Z')) if nm in paulis)
     out = []
     for w in range(1, t + 1):
-        combos = []
         for qs in itertools.combinations(range(n), w):
-            combos.append(qs)
-        for qs in combos:
-            for letters in itertools.product(((1, 0), (1, 1), (0, 1)), repeat=w):
+            if len(pool) == 1:
+                out.append((qs, pool * w))
+                continue
+            for letters in itertools.product(pool, repeat=w):
                 out.append((qs, letters))
     if limit and len(out) > limit:
         pick = rng.choice(len(out), size=limit, replace=False)
@@ -157,7 +154,7 @@ def correctable_case(case, fail):
     H = gf2.to_dense(code.stabilizer_matrix)
     span = gf2.Span(gf2.rows_to_ints(H))
     rng = np.random.default_rng(case['rseed'])
-    errs = weight_le_t_errors(n, t, rng, case.get('limit'))
+    errs = weight_le_t_errors(n, t, rng, case.get('limit'), case.get('paulis', 'XYZ'))
     lo, hi = case.get('lo', 0), case.get('hi', len(errs))
     nt_keys = []
     evals = 0
@@ -285,19 +282,37 @@ def correctable_cases(quick, seed):
             if d > 5:
                 continue
             out.append(dict(base, decoder='MatchingDecoder', code=domain.code_case(cls, size)))
-    uf_top = 4 if quick else 5
     for size in itertools.product(range(3, 7), repeat=2):
         d = min(size)
-        if d > uf_top:
+        if d > 5:
             continue
         n = 2 * size[0] * size[1]
         t = (d - 1) // 2
         total = 3 * n + (9 * n * (n - 1) // 2 if t >= 2 else 0)
-        step = 400
+        step = 800
+        if quick and d == 5 and size != (5, 5):
+            # quick: single-type errors only on the rectangular d = 5 tori
+            for paulis in 'XZ':
+                out.append(dict(base, decoder='UnionFindDecoder', paulis=paulis,
+                                code=domain.code_case('Toric2DCode', size)))
+            continue
         for lo in range(0, total, step):
             out.append(dict(base, decoder='UnionFindDecoder',
                             code=domain.code_case('Toric2DCode', size),
                             lo=lo, hi=min(total, lo + step)))
+    # t = 3 on the smallest d = 7 tori: single-type errors (all supports)
+    for size, paulis in () if quick else (((7, 7), 'X'), ((7, 7), 'Z'), ((7, 8), 'X'), ((8, 7), 'Z')):
+        n = 2 * size[0] * size[1]
+        total = n + n * (n - 1) // 2 + n * (n - 1) * (n - 2) // 6
+        if quick:
+            # every fourth block of supports
+            blocks = list(range(0, total, 1500))[::4]
+        else:
+            blocks = list(range(0, total, 1500))
+        for lo in blocks:
+            out.append(dict(base, decoder='UnionFindDecoder', paulis=paulis,
+                            code=domain.code_case('Toric2DCode', size),
+                            lo=lo, hi=min(total, lo + 1500)))
     return out
 
 
